@@ -331,3 +331,9 @@ func VFile(path string) {
 		_ = os.WriteFile(path, []byte("{}"), 0o644)
 	}
 }
+
+func RuneString(n int) string    { return next("runestr").Str }
+func RuneCount(s string) int     { return len([]rune(s)) }
+func RuneAt(s string, i int) rune { return []rune(s)[i] }
+
+func RuneSource(r rune) rune { return r }
